@@ -1,1 +1,2 @@
 import CvProofs.Spec
+import CvProofs.RefBfs
